@@ -52,15 +52,16 @@ type Rule struct {
 
 // Node is one example value with its annotation.
 type Node struct {
-	Kind  Kind
-	Lit   string   // scalars: the JSON literal as written ("abc" incl. quotes, 12, 1.50, true, null)
-	Props []*Prop  // objects
-	Items []*Node  // arrays
-	Refs  []string // KRef: user type names of the shortcut
-	Rules []*Rule  // annotation rules in written order
-	Note  string   // annotation note text
-	Dash  bool     // rules followed by the note separator " -" and an EMPTY note
-	Split int      // > 0: the first Split rules (and the note) form one annotation, the rest a second one on the same value
+	Kind   Kind
+	Lit    string   // scalars: the JSON literal as written ("abc" incl. quotes, 12, 1.50, true, null)
+	Props  []*Prop  // objects
+	Items  []*Node  // arrays
+	Refs   []string // KRef: user type names of the shortcut
+	Rules  []*Rule  // annotation rules in written order
+	Note   string   // annotation note text
+	Dash   bool     // rules followed by the note separator " -" and an EMPTY note
+	RefSep string   // KRef with several names: the separator as written (default " | ")
+	Split  int      // > 0: the first Split rules (and the note) form one annotation, the rest a second one on the same value
 
 	// filled by the renderer
 	Pos    int // byte offset of the value (first byte of literal / opening bracket / '@')
@@ -111,6 +112,15 @@ func (s *Schema) Enum(name string) *EnumDef {
 		}
 	}
 	return nil
+}
+
+// RefText is the type shortcut as written.
+func (n *Node) RefText() string {
+	sep := n.RefSep
+	if sep == "" {
+		sep = " | "
+	}
+	return strings.Join(n.Refs, sep)
 }
 
 // Rule returns the rule with that name, or nil.
